@@ -9,6 +9,7 @@ import (
 	"sort"
 	"strconv"
 	"strings"
+	"time"
 
 	"github.com/corazawaf/coraza/v3/internal/verif/probe"
 	"github.com/corazawaf/coraza/v3/internal/verif/runner"
@@ -119,12 +120,12 @@ var actionMenu = [][]string{
 	{"setvar:tx.s=+1", "setvar:tx.s=+%{tx.s}"}, // s is set by the first action before it is read
 	{"setvar:tx.s=+1", "setvar:tx.t=+1"},
 	{"setvar:tx.u=%{tx.t}", "setvar:tx.t=+1", "setvar:tx.s=+1"},
-	{"setvar:tx.neg=-3", "setvar:tx.s=+%{tx.neg}"},  // signed operand copied by a macro: s + (-3)
-	{"setvar:tx.neg=-3", "setvar:tx.s=-%{tx.neg}"},  // s - (-3)
+	{"setvar:tx.neg=-3", "setvar:tx.s=+%{tx.neg}"}, // signed operand copied by a macro: s + (-3)
+	{"setvar:tx.neg=-3", "setvar:tx.s=-%{tx.neg}"}, // s - (-3)
 	{"setvar:tx.s=+%{tx.t}", "setvar:tx.s=-%{tx.t}", "setvar:tx.s=+1"},
 	{"setvar:tx.s=+1", "setvar:!tx.s", "setvar:tx.s=+3"}, // set, delete, set again: per matched value
 	{"setvar:tx.k=1", "setvar:!tx.k", "setvar:tx.k=2", "setvar:tx.s=+1"},
-	{"setvar:tx.%{matched_var}=+1"},                          // the whole key is one macro
+	{"setvar:tx.%{matched_var}=+1"},                              // the whole key is one macro
 	{"setvar:tx.%{matched_var}=+1", "setvar:!tx.%{matched_var}"}, // ... also when deleting
 }
 
@@ -505,6 +506,7 @@ func run(c *runner.Ctx) {
 }
 
 func checkProgram(c *runner.Ctx, rules []ruleT) {
+	defer c.Watch("program", kase{Rules: rules}, 3*time.Minute)()
 	cf := conf(rules)
 	w, err := scen.Build(cf)
 	if err != nil {
